@@ -55,6 +55,10 @@ def variants(topo, rng, n_perm):
     # the same calls as the base construction, but every lookup is read and the network validated after every call
     V.append(("reads-interleaved", {"order": list(base), "touch": True}))
     V.append(("reads-interleaved-reversed", {"order": list(reversed(base)), "touch": True}))
+    # objects replaced after the network has already been stepped: first decoy links (then decoy origins/destinations) sit
+    # on the graph and the network is stepped once; then the real elements replace them through the same API calls
+    V.append(("decoy-links-stepped-then-replaced", {"decoy": "links"}))
+    V.append(("decoy-attachments-stepped-then-replaced", {"decoy": "attach"}))
     V.append(("renamed", {"rename": lambda s: "zz_" + s[::-1] + "_" + str(len(s))}))
     V.append(("turnrates-scaled", {"scale": True}))
     return V
@@ -76,7 +80,54 @@ def touch_all(net):
         pass
 
 
-def build_variant(topo, P, var):
+def build_decoy_variant(topo, P, kind, first_engine=None):
+    import sym_metanet as M
+    import numpy as np
+    from sym_metanet.engines.numpy import Engine as NE
+
+    built = T_.build(topo, P, order=[])  # element objects only
+    vals = numrun.exact_params(topo, 3)
+    decoy = T_.build(topo, vals, order=[], rename=lambda s: "decoy_" + s)
+    net = built.net
+    for n in topo.nodes:
+        net.add_node(built.nodes[n])
+    L_ = decoy.links if kind == "links" else built.links
+    O_ = decoy.origins if kind == "attach" else built.origins
+    D_ = decoy.dests if kind == "attach" else built.dests
+    for l in topo.links:
+        net.add_link(built.nodes[l.u], L_[l.name], built.nodes[l.v])
+    for n, (o, k) in topo.origins.items():
+        net.add_origin(O_[o], built.nodes[n])
+    for n, (d, k) in topo.dests.items():
+        net.add_destination(D_[d], built.nodes[n])
+    if kind == "links":
+        # a numeric step is possible when only the links are decoys? the real origins carry symbolic parameters -> use a
+        # throw-away float parameterisation of the real origins for this first step
+        saved = {o: getattr(built.origins[o], "C", None) for o in built.origins}
+        for o in built.origins:
+            if hasattr(built.origins[o], "C"):
+                built.origins[o].C = vals.get(f"C_{o}", 2000.0)
+    with np.errstate(all="ignore"):
+        # first step with the kind of engine the real parameters belong to (engine's own variables)
+        net.step(engine=first_engine or NE("rand"), **T_.model_kwargs(topo, vals if kind == "links" and first_engine is None else {**vals, **{k: P[k] for k in T_.MODEL_PARAMS}}))
+    touch_all(net)
+    if kind == "links":
+        for o, c in saved.items():
+            if c is not None:
+                built.origins[o].C = c
+    # now the real elements replace the decoys (later attachments replace earlier ones)
+    for l in topo.links:
+        net.add_link(built.nodes[l.u], built.links[l.name], built.nodes[l.v])
+    for n, (o, k) in topo.origins.items():
+        net.add_origin(built.origins[o], built.nodes[n])
+    for n, (d, k) in topo.dests.items():
+        net.add_destination(built.dests[d], built.nodes[n])
+    return built
+
+
+def build_variant(topo, P, var, first_engine=None):
+    if var.get("decoy"):
+        return build_decoy_variant(topo, P, var["decoy"], first_engine)
     if not var.get("touch"):
         return T_.build(topo, P, order=var.get("order"), rename=var.get("rename"))
     # one call at a time, lookups read in between
@@ -208,7 +259,7 @@ def cas_variant(topo, st, numeric, var):
     """compile the variant network.  With scaling, beta parameters stay the declared symbols and are
     scaled when bound (the function is the same; the *values* fed differ by the factor)."""
     P, symbolic = runs.cas_params(topo, st, numeric)
-    built = build_variant(topo, P, var)
+    built = build_variant(topo, P, var, runs.casadi_engine(st))
     eng = runs.casadi_engine(st)
     kw = T_.model_kwargs(topo, P)
     built.net.step(engine=eng, **runs.NOFLAGS, **kw)
